@@ -82,6 +82,10 @@ Record mon : Set := mkMon {
 Definition mon_reset (v : view) (left : nat) : mon :=
   mkMon v left None None None None 0 None None None 0 0 0 None.
 
+(* constants of the PROPERTY texts (not the regenerated ones of the code) *)
+Definition prop_sync_bits : Z := 33.        (* C01: synchronisation pause *)
+Definition prop_bits_per_byte : Z := 11.    (* one UART character *)
+
 Definition kind_in (k : state_kind) (l : list state_kind) : bool := existsb (state_kind_eqb k) l.
 
 (* the telegrams `receive_all_telegrams` delivers from a buffer, with their is_last flag *)
@@ -163,7 +167,7 @@ Definition mon_poll (p : params) (napps : nat) (m : mon) (s : pstep) : mon * lis
   let k1 := v_kind post in
   let grew := Nat.ltb (m_left m) (length (s_rx s)) in
   let lba := if grew then Some (zmax_opt (m_lba m) now) else m_lba m in
-  let sync := p_bits_to_time p sync_pause_bits in
+  let sync := p_bits_to_time p prop_sync_bits in
   let slot := slot_time p in
   let silent_for (d : Z) : bool := match lba with Some l => l + d <? now | None => true end in
   let txt := match s_tx s with Some w => decode_one w | None => None end in
@@ -200,7 +204,7 @@ Definition mon_poll (p : params) (napps : nat) (m : mon) (s : pstep) : mon * lis
     then check (match s_tx s with Some w => is_claim_token ts w | None => false end) R06_no_claim_after_timeout
     else [] in
   let tx_end := match s_tx s with
-                | Some w => Some (now + bits_to_time (p_baud p) (bits_per_byte * Zlen w))
+                | Some w => Some (now + bits_to_time (p_baud p) (prop_bits_per_byte * Zlen w))
                 | None => None
                 end in
   let online := match v_conn post with ConnOffline => false | _ => true end in
@@ -303,7 +307,7 @@ Definition mon_poll (p : params) (napps : nat) (m : mon) (s : pstep) : mon * lis
             if h_sa h =? ts then
               check (opt_eqb (m_req m) (Some (h_da h))) R12_reply_without_request ++
               (if state_kind_eqb k0 KActiveIdle then
-                 check ((resp_state_to_byte st =? resp_state_to_byte active_idle_reply) &&
+                 check ((resp_state_to_byte st =? resp_state_to_byte RsMasterInRing) &&
                         (resp_status_to_byte status =? resp_status_to_byte StOk)) R12_reply_untruthful
                else if state_kind_eqb k0 KListenToken then
                  let ready := v_las_valid pre && (h_da h =? v_ps pre) in
